@@ -8,6 +8,7 @@ CONSTANTS
   MaxCrashes = 0
   Coarse = FALSE
   StatByName = FALSE
+  StampFirst = FALSE
   KnownCauses = {}
 CHECK_DEADLOCK FALSE
 INVARIANT NoWitnessPurge
